@@ -573,6 +573,53 @@ Proof.
   - left. now destruct (av_none c I W).
 Qed.
 
+(* the winner is never marked as a loser *)
+Definition AWin (c : acfg) : Prop := forall w, a_win c = Some w -> a_pc c w <> ALost.
+Lemma astep_awin c a : AWin c -> AWin (astep c a).
+Proof.
+  intros I w. destruct a as [i | i]; unfold astep.
+  - destruct (a_pc c i) eqn:PC; try apply I. destruct (Nat.ltb _ _); [| apply I].
+    destruct (a_win c) as [w0 |] eqn:W; cbn [a_win a_pc].
+    + intro E. injection E as <-. fu w0 i.
+      * rewrite Nat.eqb_refl. discriminate.
+      * apply I. exact W.
+    + intro E. injection E as <-. rewrite fupd_same. discriminate.
+  - destruct (a_pc c i) eqn:PC; try apply I. cbn [a_win a_pc]. intro E. fu w i; [discriminate | apply I; exact E].
+Qed.
+Lemma arun_awin acts : forall c, AWin c -> AWin (arun acts c).
+Proof. induction acts as [| a l IH]; intros c I; cbn [arun fold_left]; auto. apply IH. now apply astep_awin. Qed.
+
+(* Signals of every kind - items and the terminal - take part in the election in the same way (amb.rs: next, error and complete all
+   go through is_win).  At quiescence, if any input has anything to say, there is a winner and EXACTLY its script has been delivered:
+   all of its items and its terminal, and nothing of any other input - also when every input only completes, or when a loser fails. *)
+Theorem amb_quiescent_delivers_winner scripts acts :
+  let c := arun acts (ainit scripts) in
+  (forall a, astep c a = c) -> (exists i, scripts i <> []) ->
+  exists w, a_win c = Some w /\ a_log c = map (fun v => (w, v)) (scripts w).
+Proof.
+  intros c Q [i NE].
+  assert (I : AInv c) by (apply arun_inv, ainit_inv).
+  assert (S : a_script c = scripts) by (unfold c; now rewrite arun_script).
+  assert (WL : AWin c) by (apply arun_awin; intros w E; discriminate E).
+  destruct (a_win c) as [w |] eqn:W.
+  - exists w. split; [reflexivity |]. destruct (av_some c I w W) as (A & B & C & D).
+    rewrite D, S. f_equal. apply firstn_all2. rewrite <- S.
+    destruct (a_pc c w) eqn:PC.
+    + (* idle: if it had more to say, the check would move it *)
+      destruct (Nat.ltb (a_k c w) (length (a_script c w))) eqn:LT; [| apply Nat.ltb_ge in LT; exact LT].
+      exfalso. pose proof (Q (ACheck w)) as E. unfold astep in E. rewrite PC, LT, W in E.
+      apply (f_equal (fun x => a_pc x w)) in E. cbn [a_pc] in E. unfold fupd in E. rewrite !Nat.eqb_refl in E. congruence.
+    + (* about to emit: the send would lengthen the log *)
+      exfalso. pose proof (Q (ASend w)) as E. unfold astep in E. rewrite PC in E.
+      apply (f_equal (fun x => length (a_log x))) in E. cbn [a_log] in E. rewrite app_length in E. cbn in E. lia.
+    + exfalso. exact (WL w W PC).
+  - exfalso. destruct (av_none c I W) as [_ Z]. destruct (Z i) as [P K].
+    pose proof (Q (ACheck i)) as E. unfold astep in E. rewrite P, K, W in E.
+    assert (LT : Nat.ltb 0 (length (a_script c i)) = true).
+    { apply Nat.ltb_lt. rewrite S. destruct (scripts i); [congruence | cbn; lia]. }
+    rewrite LT in E. apply (f_equal a_win) in E. cbn [a_win] in E. congruence.
+Qed.
+
 (* ================================================================== take *)
 Ltac kc := cbn [k_count k_n k_open k_pc k_log].
 Ltac kc_in H := cbn [k_count k_n k_open k_pc k_log] in H.
